@@ -118,8 +118,50 @@ def last_startxref(data):
     return int(m[-1]) if m else None
 
 
+def first_section_first():
+    """a file whose NEWEST cross-reference section stands in front of the section its /Prev names (the layout of linearized files:
+    first-page section first, main section behind it).  -> (bytes, /Size, offset of the newest section, offset of the older one)"""
+    out = bytearray(b"%PDF-1.7\n")
+    offs = {}
+    def obj(num, body):
+        offs[num] = len(out)
+        out.extend(b"%d 0 obj\n" % num + body + b"\nendobj\n")
+    obj(1, b"<</Type /Catalog /Pages 2 0 R>>")
+    obj(2, b"<</Type /Pages /Kids [] /Count 0>>")
+    off3old = len(out)
+    out.extend(b"3 0 obj\n7\nendobj\n")
+    off3new = len(out)
+    out.extend(b"3 0 obj\n8\nendobj\n")
+    off_a = len(out)
+    hole = b"@@@@@@@@@@"
+    out.extend(b"xref\n3 1\n%010d 00000 n \ntrailer\n<</Size 4 /Root 1 0 R /Prev " % off3new + hole + b">>\n")
+    out.extend(b"%" + b"filler " * 20 + b"\n")
+    off_b = len(out)
+    out.extend(b"xref\n0 4\n0000000000 65535 f \n%010d 00000 n \n%010d 00000 n \n%010d 00000 n \ntrailer\n<</Size 4 /Root 1 0 R>>\n"
+               % (offs[1], offs[2], off3old))
+    out.extend(b"startxref\n%d\n%%%%EOF\n" % off_a)
+    data = bytes(out).replace(hole, b"%010d" % off_b)
+    return data, 4, off_a, off_b
+
+
+def layout_cases(rng):
+    """prefixes whose LENGTH coincides with a distance inside the file (between the two sections, to either section): where a
+    header-relative number and an absolute position are mixed up, these are the lengths on which the two meet (seeded/C17i)"""
+    data, size, off_a, off_b = first_section_first()
+    lens = sorted({n for n in (off_b - off_a, off_b - off_a - 1, off_b - off_a + 1, off_a, off_b, 1, 1019) if 0 < n <= 1019})
+    for n in lens:
+        pre = bytes(rng.choice(b"abc \n%") for _ in range(n))
+        while MARKER in pre:
+            pre = pre.replace(MARKER, b"%PDF+")
+        yield Case("xr_pair", [b"s", b"%d" % size, pre, data], check=pair_check(None), model=False,
+                   tags=["layout:first-section-first", "len:%d" % n, "len-is-section-distance" if n == off_b - off_a else "len-other"])
+
+
 def generate(rng, tier):
     quick = tier == "quick"
+    if not os.environ.get("VP_NO_LAYOUT_CASES"):       # (switch used once, to establish what seeded/C17i needed)
+        for c in layout_cases(rng):
+            yield c
     # generated files
     n = 14 if quick else 300
     for i in range(n):
